@@ -10,8 +10,9 @@
    C13_proc at the end; model coq/Model/Proc.v, replayed on every real pipeline trace). Statements only. *)
 From Verif Require Import Base.Sx Base.GoSem Base.Json Model.Decoders.Common
   Model.Actions.Tree Model.Actions.Subst Model.Actions.ConvertUtf8 Model.Actions.HashNorm Model.Actions.Plugins
-  Model.Actions.Entry Model.Actions.ExtraTree Model.Actions.ExtraPlugins.
-From Verif Require Proofs.Actions.Theorems Proofs.Actions.Plugins Proofs.Actions.ExtraTree Proofs.Actions.ExtraPlugins.
+  Model.Actions.Entry Model.Actions.ExtraTree Model.Actions.ExtraPlugins Model.Actions.Templates.
+From Verif Require Proofs.Actions.Theorems Proofs.Actions.Plugins Proofs.Actions.ExtraTree Proofs.Actions.ExtraPlugins
+  Proofs.Actions.Templates.
 From Coq Require Import Permutation.
 Import Proofs.Actions.Plugins.   (* sop_valid / filter_valid: what the filter parsers accept *)
 Import Proofs.Actions.ExtraTree.   (* last_get: the last value a field list gives a key *)
@@ -470,6 +471,50 @@ Theorem c13_cardinality :
 Proof. exact (conj card_total (conj card_wf card_spec)). Qed.
 Print Assumptions c13_cardinality.
 
+(* ---- coverage round: the join templates' hand-written checks and cfg.ParseFieldSelector ------------------
+   (Model/Actions/Templates.v, exact differential streams 51 / 52 of harness/c13/covmodels.go) *)
+(* every StartCheck / ContinueCheck of every template (0 go_panic, 1 cs_exception, 2 go_data_race) returns a value
+   on every byte string: no s[i] / s[a:b] of containsAt, containsEndOf, containsException, containsGoroutineID,
+   containsLineNumber, containsCreatedBy, containsCall, endsWithIdentifier, containsPanicAddress is out of range and
+   no backwards loop runs out of its fuel *)
+Theorem c13_join_template_checks_return : forall tmpl continue s, exists b, template_check tmpl continue s = Ok b.
+Proof. exact Templates.template_check_ok. Qed.
+Print Assumptions c13_join_template_checks_return.
+
+Theorem c13_join_template_checks_total : forall tmpl continue s p, template_check tmpl continue s <> Panic p.
+Proof. exact Templates.template_check_total. Qed.
+Print Assumptions c13_join_template_checks_total.
+
+(* the (^\s*$) alternative of go_panic's continue pattern *)
+Theorem c13_join_template_only_spaces : forall l, only_spaces l = forallb a_is_space l.
+Proof. exact Templates.only_spaces_spec. Qed.
+Print Assumptions c13_join_template_only_spaces.
+
+(* cfg.ParseFieldSelector (every action's Start runs it over its field options; rename.Do's paths come from it) *)
+Theorem c13_field_selector_total :
+  (forall selector, exists r, parse_field_selector selector = Ok r)
+  /\ (forall selector p, parse_field_selector selector <> Panic p).
+Proof. exact (conj Templates.parse_field_selector_ok Templates.parse_field_selector_total). Qed.
+Print Assumptions c13_field_selector_total.
+
+Theorem c13_field_selector_nonempty : forall selector r,
+  selector <> [] -> parse_field_selector selector = Ok r -> r <> [].
+Proof. exact Templates.parse_field_selector_nonempty. Qed.
+Print Assumptions c13_field_selector_nonempty.
+
+Theorem c13_field_selector_plain : forall selector,
+  selector <> [] -> index_byte selector 46%N = -1 -> parse_field_selector selector = Ok [selector].
+Proof. exact Templates.parse_field_selector_plain. Qed.
+Print Assumptions c13_field_selector_plain.
+
+(* with the modelled selector parser in the place of the oracle, rename's totality (c13_rename_total_wf, first clause)
+   holds without any hypothesis *)
+Theorem c13_rename_total_modelled_selector :
+  (forall cfg, paths_nonempty (rename_ops Templates.selector_fn cfg) = true)
+  /\ (forall preserve cfg root, exists r, rename_cfg_do Templates.selector_fn preserve cfg root = Ok (APass, r)).
+Proof. exact (conj Templates.rename_paths_nonempty_modelled_selector Templates.rename_total_modelled_selector). Qed.
+Print Assumptions c13_rename_total_modelled_selector.
+
 (* ---- non-vacuity -------------------------------------------------------------------------------- *)
 From Coq Require Import Strings.String.
 Local Open Scope Z_scope.
@@ -595,6 +640,23 @@ Example c13_sequences_nonvacuous :
      = Ok [(0, JObj [(bs "service", JStr (bs "a")); (bs "level", JStr (bs "x"))]);
            (2, JObj [(bs "service", JStr (bs "a")); (bs "level", JStr (bs "y"))]);
            (0, JObj [(bs "service", JStr (bs "b")); (bs "level", JStr (bs "y"))])].
+Proof. repeat split; vm_compute; reflexivity. Qed.
+
+(* the template checks on lines of a Go panic / a C# exception, and selectors with an escaped and a doubled dot *)
+Example c13_templates_selector_nonvacuous :
+  template_check 0 false (bs "panic: runtime error") = Ok true
+  /\ template_check 0 true (bs "main.(*T).f(0x1, 0x2)") = Ok true
+  /\ template_check 0 true (bs "	app/x.go:12 +0x1d") = Ok true
+  /\ template_check 0 true (bs "a line that is no part of a trace") = Ok false
+  /\ template_check 1 false (bs "  UNHANDLED Exception. System.X") = Ok true
+  /\ template_check 1 true (bs "   at Program.Main()") = Ok true
+  /\ template_check 1 true (bs "System.NullReferenceException: Object reference") = Ok true
+  /\ template_check 1 true (bs "Exception: first") = Ok false
+  /\ template_check 2 true (bs "==================") = Ok true
+  /\ parse_field_selector (bs "a.b\.c.d") = Ok [bs "a"; bs "b.c"; bs "d"]
+  /\ parse_field_selector (bs "a..b") = Ok [bs "a.b"]
+  /\ parse_field_selector (bs ".") = Ok [[]]
+  /\ parse_field_selector [] = Ok [].
 Proof. repeat split; vm_compute; reflexivity. Qed.
 
 (* ---- processor: the stream time-out reaches only the action that holds a run ------------------------ *)
